@@ -2,7 +2,10 @@
 
 package plenc
 
-import "github.com/philpearl/plenc/plenccodec"
+import (
+	"github.com/philpearl/plenc/plenccodec"
+	"github.com/philpearl/plenc/verifhook"
+)
 
 // VerifRegistry returns every codec currently published in the instance's
 // shared registry (read-only view for the verification harness in /verif).
@@ -10,6 +13,18 @@ func (p *Plenc) VerifRegistry() []plenccodec.Codec {
 	var out []plenccodec.Codec
 	p.codecRegistry.codecRegistry.Range(func(_, v any) bool {
 		out = append(out, v.(plenccodec.Codec))
+		return true
+	})
+	return out
+}
+
+// VerifRegistryKeys returns the (type, tag) keys currently published in the
+// instance's shared registry.
+func (p *Plenc) VerifRegistryKeys() []verifhook.TypeTag {
+	var out []verifhook.TypeTag
+	p.codecRegistry.codecRegistry.Range(func(k, _ any) bool {
+		rk := k.(registryKey)
+		out = append(out, verifhook.TypeTag{Typ: rk.typ, Tag: rk.tag})
 		return true
 	})
 	return out
